@@ -5,6 +5,7 @@ from harness.core import q, qlist, cbool, Case, guarded, ImplError
 
 RULE = ('cases = (entry point, trap, dt, record); exact domain: integer records x dyadic dt compared with tolerance 0; '
         'tolerance domain: float records (incl. the shipped motion) compared to 1e-10 of the series peak; '
+        'array level also on non-contiguous float64 views of the record (column data[:, 1] of a 2-D table, every k-th sample a[::k]; the model is given the viewed numbers); '
         'non-trivial = record not identically zero and length >= 3; distinct by digest of (site, arguments)')
 TRUSTED = [
     'Coq 8.16.1 kernel + vm_compute (no native_compute)',
@@ -26,6 +27,23 @@ def mk_case(site, trap, dt, a, v, d, peaks, rtol):
     return Case(coq, rp, site, nontrivial=(len(a) >= 3 and any(x != 0 for x in a)), klass='%s/%s/%s' % (site, 'trap' if trap else 'rect', 'exact' if rtol == 0 else 'tol'))
 
 
+def strided_view(a, how, dt):
+    """float64 view of the numbers `a` whose stride is not 8 bytes: 'column' = the acceleration column data[:, 1] of a
+    C-ordered (time, acceleration) table; 'every-k' = every k-th sample of a longer series whose other samples are different"""
+    a = np.array(a, dtype=float)
+    if how == 'column':
+        data = np.column_stack([np.arange(len(a)) * dt + 7.0, a])
+        view = data[:, 1]
+    else:
+        k = int(how.split('-')[1])
+        base = np.repeat(a, k)
+        base += np.arange(len(base)) % k * (np.abs(a).max() + 1.0)       # samples in between: not those of the record
+        view = base[::k]
+    assert view.dtype == np.float64 and not view.flags['C_CONTIGUOUS'] or len(a) < 2
+    assert np.array_equal(view, a)
+    return view
+
+
 def impl_array(a, dt, trap, dtype=float):
     """array-level call, checked for purity: the record (stored as float64, integers or float32: the integrals are those
     of the same numbers) must not be modified, and a second call on the same array object must return the same series"""
@@ -33,6 +51,8 @@ def impl_array(a, dt, trap, dtype=float):
     from eqsig.displacements import calc_velo_and_disp_from_accel_arr
     if dtype in (list, tuple):       # plain Python containers are accepted at array level
         a = dtype(float(x) for x in a)
+    elif isinstance(dtype, str):     # the record handed over as a NON-CONTIGUOUS float64 view (the record is the viewed numbers)
+        a = strided_view(a, dtype, dt)
     else:
         a = np.array(a, dtype=float).astype(dtype)
     a0 = np.array(a, dtype=float)
@@ -195,6 +215,22 @@ def gen(rng, tier):
             r = guarded(impl_array, a, dt, trap)
             site = 'calc_velo_and_disp_from_accel_arr'
         out.append((site, trap, dt, a, r, 1e-10))
+    # the record arriving as a non-contiguous float64 view (a column of a 2-D table, every k-th sample of a longer series):
+    # the integrals are those of the viewed numbers
+    for k in range(12 if tier == 'quick' else 120):
+        n = gens.small_len(rng, 2, maxlen)
+        how = ['column', 'every-2', 'column', 'every-3', 'column', 'every-7'][k % 6]
+        trap = (k % 4 != 3)
+        exact = (k % 3 != 2)
+        if exact:
+            a, style = gens.int_record(rng, n, amp=rng.choice([3, 20, 50]))
+            dt = gens.dyadic_dt(rng, 1, 10)
+        else:
+            a, style = gens.float_record(rng, n)
+            dt = rng.choice([0.01, 0.005, 0.02])
+        r = guarded(impl_array, a, dt, trap, how)
+        out.append(('calc_velo_and_disp_from_accel_arr[non-contiguous float64 view: %s]' % ('data[:, 1]' if how == 'column' else 'a[::%s]' % how.split('-')[1]),
+                    trap, dt, a, r, 0 if exact else 1e-10))
     return out
 
 
